@@ -419,6 +419,26 @@ def check (c):
     for col in cols:
         dd, dcur = observe.gain_dev_beam_db (np.append (gA [:, col], mx), np.append (gB [:, col], mx), d)
         judge ('gain', dd + 1e-300, 0.01 + dcur + observe.gain_slack_db (mA, d), 'gain in rotated directions differs by %.4f dB (column %d)' % (dd, col))
+    # the original asked for a whole table at once (several azimuth angles per zenith angle), the moved antenna for
+    # the images of these directions one by one
+    MMg = common.repo ()
+    zen = MMg.Angle (12.0, 19.0, 4) if mA.media is not None else MMg.Angle (15.0, 38.0, 5)
+    azi = MMg.Angle (10.0, 90.0, 4)
+    common.guarded (lambda: mA.compute_far_field (zen, azi), 'compute_far_field')
+    gT  = np.asarray (mA.far_field.gain)
+    shp = gT.shape [:2]
+    tz, ta = np.radians (np.asarray (zen.angle_deg (), float)), np.radians (np.asarray (azi.angle_deg (), float))
+    axis_z = 0 if shp [0] == len (tz) else 1
+    gdir, gtab = [], []
+    for iz, t in enumerate (tz):
+        for ia, a in enumerate (ta):
+            gdir.append (np.array ([np.sin (t) * np.cos (a), np.sin (t) * np.sin (a), np.cos (t)]))
+            gtab.append (gT [iz, ia] if axis_z == 0 else gT [ia, iz])
+    gtab = np.array (gtab)
+    gBt  = gain_at (mB, [Tv (x) for x in gdir])
+    for col in cols:
+        dd, dcur = observe.gain_dev_beam_db (np.append (gtab [:, col], mx), np.append (gBt [:, col], mx), d)
+        judge ('gain.table', dd + 1e-300, 0.01 + dcur + observe.gain_slack_db (mA, d), 'gain table of the original (4 azimuth angles per zenith angle) differs by %.4f dB from the moved antenna in the moved directions (column %d)' % (dd, col), key = 'gain')
     res_keys = ('currents', 'impedance', 'impedance.routes', 'gain')
     if viol and all (v ['key'] in res_keys for v in viol) and all (v.get ('measured', np.inf) <= 4 * v.get ('allowed', 0) for v in viol):
         # known finding: the order of the Gauss rule is chosen by t = (d0 + d3) / segment length against 6 and 10; on a
